@@ -37,7 +37,7 @@ class database(fs_template.FsBased):
     def _getitem(self, cpv):
         path = pjoin(self.location, cpv)
         try:
-            data = readlines_utf8(path, True, True, True)
+            data = readlines_utf8(path, False, True, True)
             if data is None:
                 raise KeyError(cpv)
             return self._parse_data(data, data.mtime)
@@ -48,7 +48,8 @@ class database(fs_template.FsBased):
         d = self._cdict_kls()
         known = self._known_keys
         for x in data:
-            k, v = x.split("=", 1)
+            # values keep their own leading/trailing whitespace; only the line end goes
+            k, v = x.rstrip("\n").split("=", 1)
             if k in known:
                 d[k] = v
 
@@ -125,7 +126,9 @@ class database(fs_template.FsBased):
             except OSError as e:
                 raise KeyError(d, f"access failure: {e}") from e
             for l in subdirs:
-                if l.endswith(".cpickle"):
+                if l.endswith(".cpickle") or l.startswith(".update."):
+                    # .update.<pid>.<name> is the temporary file of a store in
+                    # progress (or a leftover of an interrupted one), not a package
                     continue
                 p = pjoin(d, l)
                 try:
